@@ -50,7 +50,7 @@ def run(tier, replay):
             k = f"{r['login']}/{int(r['priv'])}/{r['issue']}"
             cover.setdefault(k, {}).setdefault(r["scope"], 0)
             cover[k][r["scope"]] += 1
-    if not replay:
+    if not replay and not R.violations:
         missing = [f"{lg}/{p}/login" for lg in LOGINS for p in (0, 1) if f"{lg}/{p}/login" not in cover]
         missing += [f"{lg}/0/{i}" for lg in ("pw", "mfa", "passkey") for i in ("reauth_rw", "reauth_ro") if f"{lg}/0/{i}" not in cover]
         if missing:
